@@ -14,7 +14,7 @@ LEVEL = "exploration"
 TOL = {"time_rel_duration": 2e-10, "pulser_uniqueness_rel": 1e-12}
 RULE = ("real Pulser sequences of 1-3 operations with durations 1..10000 ns (XY and rydberg, modulated or not), dt from "
         "0.1 to above the duration (ints, floats, non-representable decimals), evaluation-time sets (rationals, "
-        "linspace-style, irrationals, 0 and 1, per observable and config default), n_trajectories 1..50 with no / "
+        "linspace-style, irrationals, 0 and 1, times 1e-16..1e-9 below the end, per observable and config default), n_trajectories 1..50 with no / "
         "SPAM / amplitude noise; validity predicate on PulserData.target_times and the yielded SequenceData; a tenth "
         "of the cases are also run on a backend to count the steps actually taken; non-trivial = dt does not divide "
         "the duration or an evaluation time is off the dt grid; distinct = case hash")
@@ -58,8 +58,13 @@ def _cases(draw):
         st.just(float(T)), st.just(T + 1), st.just(T / 3), st.just(T / 7)))
     if T / dt > 3000:  # keep PulserData cheap: at most 3000 steps
         dt = max(dt, round(T / 3000 + 0.05, 1))
+    evals = [draw(gen.eval_time_sets(4)) for _ in range(draw(st.integers(1, 2)))]
+    if draw(st.integers(0, 3)) == 0:
+        # a time a hair below the end (the last entry of np.cumsum([0.1] * 10) is 0.9999999999999999), replacing 1.0 if present
+        near = draw(st.sampled_from([0.9999999999999999, 1 - 1e-12, 1 - 3e-11, 1 - 2e-10, 1 - 1e-9]))
+        evals[0] = sorted({e for e in evals[0] if e < 0.999} | {near})
     return {"seq": seq, "dt": dt, "mod": mod,
-            "evals": [draw(gen.eval_time_sets(4)) for _ in range(draw(st.integers(1, 2)))],
+            "evals": evals,
             "default_evals": draw(st.one_of(st.none(), gen.eval_time_sets(3))),
             "default_pos": draw(st.integers(0, 2)),
             "noise": draw(st.sampled_from([None, None, "spam", "amp", "dephasing"] if basis != "XY" else [None, None, "dephasing"])),
